@@ -349,7 +349,15 @@ def run(ctx, builddir):
         tf_jobs = [j for j in jobs if j["family"] in ("tf_eager", "tf_function")]
         jx_jobs = [j for j in jobs if j["family"] in ("jax", "perm")]
         ctx.extra["planned_jobs"] = len(jobs)
-        core.pmap(ctx, "mc.checks.c10", "work", [it for it in (tf_jobs, jx_jobs) if it], builddir, procs=2, env=env)
+        # (lead) each family is split round-robin into 4 work items, i.e. up to 8 workers: start-up is paid 4x per family,
+        # but the wall time drops from ~6 min to ~2 min on an idle machine
+        items = []
+        for fam in (tf_jobs, jx_jobs):
+            for k in range(4):
+                part = fam[k::4]
+                if part:
+                    items.append(part)
+        core.pmap(ctx, "mc.checks.c10", "work", items, builddir, procs=8, env=env)
         return _finish(ctx)
     fams = {"tf_eager": [], "tf_function": [], "jaxperm": []}
     for j in jobs:
